@@ -40,11 +40,22 @@ namespace MayVerif.Park
 @[grind] def cSet : CPc → Bool | .c2 | .c3 | .c4 => true | _ => false
 @[grind] def kcSet : KPc → Bool | .kc3 | .kc4 => true | _ => false
 @[grind] def kArmed : KPc → Bool | .k1 | .k2 => true | _ => false
+/-- fixed code: the tail has armed the timer and not yet done its re-check of the time (incl. the take that follows) -/
+@[grind] def kWin : KPc → Bool | .k1 | .k2 | .k2t | .k2k => true | _ => false
+/-- the tail has not yet reached the arming step -/
+@[grind] def kPreArm : KPc → Bool | .k5d | .k5 | .k5x | .k0 => true | _ => false
+@[grind] def kChk : KPc → Bool | .k2t | .k2k | .k2r => true | _ => false
 
 @[grind →] theorem kArmed_kPre {k : KPc} (h : kArmed k = true) : kPre k = true := by cases k <;> simp_all [kArmed, kPre]
 @[grind →] theorem kAct_false {k : KPc} (h : kAct k = false) : k = .kidle ∨ kPre k = true := by cases k <;> simp_all [kAct, kPre]
 @[grind →] theorem kPre_true {k : KPc} (h : kPre k = true) : kPast k = false ∧ kcSet k = false ∧ k ≠ .kidle := by
   cases k <;> simp_all [kPre, kPast, kcSet]
+@[grind →] theorem kWin_true {k : KPc} (h : kWin k = true) : kPreArm k = false ∧ k ≠ .kidle ∧ kPast k = false := by
+  cases k <;> simp_all [kWin, kPreArm, kPast]
+@[grind →] theorem kChk_true {k : KPc} (h : kChk k = true) : kPre k = false ∧ kAct k = true ∧ kPast k = false ∧ kPreArm k = false ∧ kArmed k = false ∧ kcSet k = false := by
+  cases k <;> simp_all [kChk, kPre, kAct, kPast, kPreArm, kArmed, kcSet]
+@[grind →] theorem kPreArm_true {k : KPc} (h : kPreArm k = true) : kPre k = true ∧ kWin k = false ∧ kArmed k = false := by
+  cases k <;> simp_all [kPreArm, kPre, kWin, kArmed]
 @[grind →] theorem retBound_true {p : PPc} (h : retBound p = true) : susp p = false ∧ preYield p = false ∧ inPark p = true ∧ paraLive p = true := by
   cases p <;> simp_all [retBound, susp, preYield, inPark, paraLive]
 @[grind →] theorem susp_true {p : PPc} (h : susp p = true) : p = .u3wait ∨ p = .u1wait ∨ p = .pd0wait := by
@@ -57,6 +68,7 @@ def pgrp : PPc → Nat
   | _ => 2
 def kgrp : KPc → Nat
   | .kidle | .k5d | .k5 | .k5x | .k0 | .k1 | .k2 | .k3 => 0
+  | .k2t | .k2k | .k2r => 2
   | _ => 1
 
 structure Inv (s : St) : Prop where
@@ -68,12 +80,13 @@ structure Inv (s : St) : Prop where
   slot : (s.loc = .slot) ↔ s.wco = true
   heldK : (s.loc = .heldK) ↔ s.kpc = .k4r
   heldKc : (s.loc = .heldKc) ↔ s.kpc = .kc4
+  heldKt : (s.loc = .heldKt) ↔ s.kpc = .k2r
   heldT : (s.loc = .heldT) ↔ s.tpc = .t1
   heldC : (s.loc = .heldC) ↔ s.cpc = .c4
   heldV : ∀ t, (s.loc = .heldV t) ↔ s.vpcs t = .v2
   queued : s.rq = if s.loc = .queued then 1 else 0
   cnt : s.yields = s.resumes + (if susp s.ppc then 1 else 0)
-  u3 : (s.loc = .ktail ∨ s.loc = .slot ∨ s.loc = .heldK ∨ s.loc = .heldKc ∨ s.loc = .heldT ∨ s.loc = .heldC ∨ (∃ t, s.loc = .heldV t)) → s.ppc = .u3wait
+  u3 : (s.loc = .ktail ∨ s.loc = .slot ∨ s.loc = .heldK ∨ s.loc = .heldKc ∨ s.loc = .heldKt ∨ s.loc = .heldT ∨ s.loc = .heldC ∨ (∃ t, s.loc = .heldV t)) → s.ppc = .u3wait
   yt : s.loc = .ytail → (s.ppc = .u1wait ∨ s.ppc = .pd0wait)
   -- B
   wk : s.wk = kAct s.kpc
@@ -99,6 +112,16 @@ structure Inv (s : St) : Prop where
   tm3 : (s.para = .timedOut ∧ s.paraOwn = true) → s.dur ≠ 0
   tm4 : preYield s.ppc = true → s.own ≠ .delreq
   tm5 : s.tpc = .t1 → s.para = .timedOut
+  tm6 : s.kpc = .k2r → s.para = .timedOut
+  dl1 : s.ppc = .u3wait → kPreArm s.kpc = false → s.dl = true → (s.dur ≠ 0 ∧ s.own ≠ .none)
+  dl3 : preYield s.ppc = true → (s.ppc ≠ .u3wait ∨ kPreArm s.kpc = true) → (s.own = .none ∧ s.tpc ≠ .t0 true)
+  dl4 : kPre s.kpc = true → s.para = .none
+  dl2 : s.own ≠ .none → (s.dl = true ∨ preYield s.ppc = false)
+  du1 : s.due = true → s.dl = true
+  du2 : s.tpc = .t0 true → s.due = true
+  du3 : (s.para = .timedOut ∧ s.paraOwn = true) → s.due = true
+  kc1 : kChk s.kpc = true → (s.fix = true ∧ s.dl = true)
+  kc2 : (s.kpc = .k2k ∨ s.kpc = .k2r) → s.due = true
   -- E (an Ok needs an unpark)
   e1 : s.state = true → 1 ≤ s.sets
   e2 : ∀ t, s.vpcs t = .v1 → 1 ≤ s.sets
@@ -110,8 +133,17 @@ structure Inv (s : St) : Prop where
   -- F
   f6 : s.ppc = .u3wait → s.dur ≠ 0 → s.lostTmo = false → (kArmed s.kpc = true ∨ s.wco = true) →
         (s.own = .armed ∨ s.tpc = .t0 true)
+  -- F' (fixed code: the time-out cannot be lost)
+  g0 : s.ppc = .u3wait → s.dur ≠ 0 → (kPreArm s.kpc = true ∨ s.dl = true)
+  g1 : s.fix = true → s.ppc = .u3wait → s.dl = true → kWin s.kpc = true →
+        (s.own = .armed ∨ s.tpc = .t0 true ∨ s.due = true)
+  g2 : s.fix = true → s.ppc = .u3wait → s.dl = true → s.wco = true → kWin s.kpc = false →
+        (s.own = .armed ∨ s.tpc = .t0 true)
+
+theorem inv_initPinned : Inv initPinned := by
+  constructor <;> simp [initPinned, susp, kPre, kAct, inPark, cSet, kcSet, kPast, retBound, preYield, paraLive, kArmed, postRes, kWin, kPreArm, kChk]
 
 theorem inv_init : Inv init := by
-  constructor <;> simp [init, susp, kPre, kAct, inPark, cSet, kcSet, kPast, retBound, preYield, paraLive, kArmed, postRes]
+  constructor <;> simp [init, susp, kPre, kAct, inPark, cSet, kcSet, kPast, retBound, preYield, paraLive, kArmed, postRes, kWin, kPreArm, kChk]
 
 end MayVerif.Park
